@@ -1,0 +1,54 @@
+//go:build verif
+
+// Contracts for the deductive verifier in /verif (comment-only; compiled only with -tags verif).
+package k8s
+
+//@ import v1 "k8s.io/api/core/v1"
+//@ import netv1 "k8s.io/api/networking/v1"
+//@ import metav1 "k8s.io/apimachinery/pkg/apis/meta/v1"
+//@ import common "github.com/np-guard/netpol-analyzer/pkg/netpol/internal/common"
+
+// ---------------------------------------------------------------------------------------------
+// PolicyConnections: the Allow / Deny / Pass verdict of the admin-policy layer
+// ---------------------------------------------------------------------------------------------
+
+//@ pred pcSet(pc *PolicyConnections, c *common.ConnectionSet) = c == pc.AllowedConns || c == pc.DeniedConns || c == pc.PassConns
+//@ pred wfPC(pc *PolicyConnections) = pc != nil && allocated(pc)
+//@     && wfCS(pc.AllowedConns) && wfCS(pc.DeniedConns) && wfCS(pc.PassConns)
+//@     && sepCS(pc.AllowedConns, pc.DeniedConns) && sepCS(pc.AllowedConns, pc.PassConns) && sepCS(pc.DeniedConns, pc.PassConns)
+//@ pred sepPCCS(pc *PolicyConnections, c *common.ConnectionSet) = sepCS(pc.AllowedConns, c) && sepCS(pc.DeniedConns, c) && sepCS(pc.PassConns, c)
+// the three verdict sets are pairwise disjoint as point sets
+//@ pred disjPC(pc *PolicyConnections) = forall q v1.Protocol, n int ::
+//@     {iset(pc.AllowedConns.AllowedProtocols[q].Ports)[n]} {iset(pc.DeniedConns.AllowedProtocols[q].Ports)[n]} {iset(pc.PassConns.AllowedProtocols[q].Ports)[n]}
+//@     !(pts(pc.AllowedConns, q, n) && pts(pc.DeniedConns, q, n)) && !(pts(pc.AllowedConns, q, n) && pts(pc.PassConns, q, n))
+//@     && !(pts(pc.DeniedConns, q, n) && pts(pc.PassConns, q, n))
+
+//@ func NewPolicyConnections
+//@   ensures [C02] wf: wfPC(res) && fresh(res) && fresh(res.AllowedConns) && fresh(res.DeniedConns) && fresh(res.PassConns)
+//@   ensures [C02] empty: !res.AllowedConns.AllowAll && !res.DeniedConns.AllowAll && !res.PassConns.AllowAll
+//@         && (forall q v1.Protocol :: {q in res.AllowedConns.AllowedProtocols} !(q in res.AllowedConns.AllowedProtocols))
+//@         && (forall q v1.Protocol :: {q in res.DeniedConns.AllowedProtocols} !(q in res.DeniedConns.AllowedProtocols))
+//@         && (forall q v1.Protocol :: {q in res.PassConns.AllowedProtocols} !(q in res.PassConns.AllowedProtocols))
+
+//@ func (*PolicyConnections).UpdateWithRuleConns
+//@   requires wfPC(pc) && wfCS(ruleConns) && sepPCCS(pc, ruleConns) && disjPC(pc)
+//@   modifies common.ConnectionSet.AllowAll { r | r == ruleConns || pcSet(pc, r) }
+//@   modifies common.ConnectionSet.AllowedProtocols { r | r == ruleConns || pcSet(pc, r) }
+//@   modifies map[v1.Protocol]*common.PortSet { m | m == ruleConns.AllowedProtocols || m == pc.AllowedConns.AllowedProtocols
+//@         || m == pc.DeniedConns.AllowedProtocols || m == pc.PassConns.AllowedProtocols }
+//@   modifies common.PortSet.Ports { r | ownsPS(ruleConns, r) || ownsPS(pc.AllowedConns, r) || ownsPS(pc.DeniedConns, r) || ownsPS(pc.PassConns, r) }
+//@   modifies map[string]bool { m | ownsMap(ruleConns, m) || ownsMap(pc.AllowedConns, m) || ownsMap(pc.DeniedConns, m) || ownsMap(pc.PassConns, m) }
+//@   ensures [C02] wf: wfPC(pc) && disjPC(pc) && pc.AllowedConns == old(pc.AllowedConns) && pc.DeniedConns == old(pc.DeniedConns) && pc.PassConns == old(pc.PassConns)
+//@   ensures [C02] allow: ruleAction == "Allow" ==> (res == nil && (forall q v1.Protocol, n int ::
+//@         {iset(pc.AllowedConns.AllowedProtocols[q].Ports)[n]} {old(iset(pc.AllowedConns.AllowedProtocols[q].Ports)[n])} {old(iset(ruleConns.AllowedProtocols[q].Ports)[n])}
+//@         pts(pc.AllowedConns, q, n) == (old(pts(pc.AllowedConns, q, n)) || (old(pts(ruleConns, q, n)) && !old(pts(pc.DeniedConns, q, n)) && !old(pts(pc.PassConns, q, n))))
+//@         && pts(pc.DeniedConns, q, n) == old(pts(pc.DeniedConns, q, n)) && pts(pc.PassConns, q, n) == old(pts(pc.PassConns, q, n))))
+//@   ensures [C02] deny: ruleAction == "Deny" ==> (res == nil && (forall q v1.Protocol, n int ::
+//@         {iset(pc.DeniedConns.AllowedProtocols[q].Ports)[n]} {old(iset(pc.DeniedConns.AllowedProtocols[q].Ports)[n])} {old(iset(ruleConns.AllowedProtocols[q].Ports)[n])}
+//@         pts(pc.DeniedConns, q, n) == (old(pts(pc.DeniedConns, q, n)) || (old(pts(ruleConns, q, n)) && !old(pts(pc.AllowedConns, q, n)) && !old(pts(pc.PassConns, q, n))))
+//@         && pts(pc.AllowedConns, q, n) == old(pts(pc.AllowedConns, q, n)) && pts(pc.PassConns, q, n) == old(pts(pc.PassConns, q, n))))
+//@   ensures [C02] pass: (ruleAction == "Pass" && !banpRules) ==> (res == nil && (forall q v1.Protocol, n int ::
+//@         {iset(pc.PassConns.AllowedProtocols[q].Ports)[n]} {old(iset(pc.PassConns.AllowedProtocols[q].Ports)[n])} {old(iset(ruleConns.AllowedProtocols[q].Ports)[n])}
+//@         pts(pc.PassConns, q, n) == (old(pts(pc.PassConns, q, n)) || (old(pts(ruleConns, q, n)) && !old(pts(pc.AllowedConns, q, n)) && !old(pts(pc.DeniedConns, q, n))))
+//@         && pts(pc.AllowedConns, q, n) == old(pts(pc.AllowedConns, q, n)) && pts(pc.DeniedConns, q, n) == old(pts(pc.DeniedConns, q, n))))
+//@   ensures [C02] bad: (ruleAction != "Allow" && ruleAction != "Deny" && !(ruleAction == "Pass" && !banpRules)) ==> res != nil
